@@ -1994,3 +1994,148 @@ func c12r8(c *RC) {
 	c.Check(nFail > 0 && failRecorded, fq+"|failure-cause-recorded", pr.Pos(fn.Body.Pos()),
 		"the local executor marks a task failed or lost without recording the error that decided it: the evaluation reports a failure with a nil cause (or a lost task is retried with no trace of why)")
 }
+
+// C05-R10: every dependency of a task contributes its reader(s) to the task's
+// input vector.
+//
+// The executors build a task's inputs in a loop over task.Deps, appending to a
+// []sliceio.Reader that is then handed to Task.Do in dependency order.  On
+// every path through one iteration that does not leave the function, an
+// append to that vector is reached: both arms of every branch on the way
+// append (or return), no `continue`/`break` skips it.  (A loop in the body
+// that contains an append counts as appending — the combine-key branch reads
+// one buffer per distinct location, which no static count bounds; that part
+// is not decided.)  A dependency that contributes nothing shifts every later
+// input by one position and drops its rows: Cogroup joins the wrong inputs,
+// a shuffle consumer loses a producer's partition.
+func c05r10(c *RC) {
+	pr := c.P
+	n := 0
+	for _, fn := range pr.FuncsIn("exec") {
+		if fn.Body == nil || fn.Parent != nil {
+			continue
+		}
+		fq := fn.QName()
+		inspectNoLit(fn.Body, func(nd ast.Node) bool {
+			rs, ok := nd.(*ast.RangeStmt)
+			if !ok {
+				return true
+			}
+			t := fn.Pkg.Info.TypeOf(rs.X)
+			if t == nil {
+				return true
+			}
+			sl, ok := t.Underlying().(*types.Slice)
+			if !ok || short(namedQName(sl.Elem())) != "exec.TaskDep" {
+				return true
+			}
+			// the reader vector appended to in this loop
+			target := ""
+			inspectNoLit(rs.Body, func(m ast.Node) bool {
+				as, ok := m.(*ast.AssignStmt)
+				if !ok || len(as.Lhs) != 1 || len(as.Rhs) != 1 {
+					return true
+				}
+				k, ok := ast.Unparen(as.Rhs[0]).(*ast.CallExpr)
+				if !ok || expr(k.Fun) != "append" || len(k.Args) < 2 || nospace(k.Args[0]) != nospace(as.Lhs[0]) {
+					return true
+				}
+				if tt := fn.Pkg.Info.TypeOf(as.Lhs[0]); tt != nil {
+					if ts, ok := tt.Underlying().(*types.Slice); ok && short(namedQName(ts.Elem())) == "sliceio.Reader" {
+						target = nospace(as.Lhs[0])
+					}
+				}
+				return true
+			})
+			if target == "" {
+				return true
+			}
+			n++
+			isAppend := func(st ast.Stmt) bool {
+				as, ok := st.(*ast.AssignStmt)
+				if !ok || len(as.Lhs) != 1 || len(as.Rhs) != 1 || nospace(as.Lhs[0]) != target {
+					return false
+				}
+				k, ok := ast.Unparen(as.Rhs[0]).(*ast.CallExpr)
+				return ok && expr(k.Fun) == "append" && len(k.Args) >= 2 && nospace(k.Args[0]) == target
+			}
+			var must func(list []ast.Stmt) bool
+			must = func(list []ast.Stmt) bool {
+				for _, st := range list {
+					switch x := st.(type) {
+					case *ast.AssignStmt:
+						if isAppend(x) {
+							return true
+						}
+					case *ast.ReturnStmt:
+						return true
+					case *ast.BranchStmt:
+						return false
+					case *ast.BlockStmt:
+						if must(x.List) {
+							return true
+						}
+					case *ast.LabeledStmt:
+						if must([]ast.Stmt{x.Stmt}) {
+							return true
+						}
+					case *ast.IfStmt:
+						thenOK := must(x.Body.List)
+						elseOK := false
+						switch e := x.Else.(type) {
+						case *ast.BlockStmt:
+							elseOK = must(e.List)
+						case *ast.IfStmt:
+							elseOK = must([]ast.Stmt{e})
+						}
+						if thenOK && elseOK {
+							return true
+						}
+						// an arm that neither appends nor leaves, followed by nothing that
+						// appends, is found by falling through to the statements after it
+						if !thenOK && blockSkips(x.Body) {
+							return false
+						}
+					case *ast.ForStmt:
+						found := false
+						inspectNoLit(x.Body, func(m ast.Node) bool {
+							if s2, ok := m.(ast.Stmt); ok && isAppend(s2) {
+								found = true
+							}
+							return true
+						})
+						if found {
+							return true
+						}
+					case *ast.RangeStmt:
+						found := false
+						inspectNoLit(x.Body, func(m ast.Node) bool {
+							if s2, ok := m.(ast.Stmt); ok && isAppend(s2) {
+								found = true
+							}
+							return true
+						})
+						if found {
+							return true
+						}
+					}
+				}
+				return false
+			}
+			c.Check(must(rs.Body.List), fq+"|every-dependency-contributes-a-reader:"+target, pr.Pos(rs.Pos()),
+				strings.TrimPrefix(fq, "exec.")+" can finish an iteration of its loop over the task's dependencies without appending a reader for that dependency to "+target+": the dependency's rows are dropped and every later input moves up one position — a Cogroup joins the wrong inputs, a shuffle consumer loses a producer's partition")
+			return true
+		})
+	}
+	c.Floor("input-wiring loops over a task's dependencies", n, 2)
+}
+
+// blockSkips: the block ends in continue or break (it leaves the iteration
+// without reaching what follows).
+func blockSkips(b *ast.BlockStmt) bool {
+	if b == nil || len(b.List) == 0 {
+		return false
+	}
+	br, ok := b.List[len(b.List)-1].(*ast.BranchStmt)
+	return ok && (br.Tok == token.CONTINUE || br.Tok == token.BREAK)
+}
